@@ -2,9 +2,7 @@
 applicability predicate, root->leaf walk, merge, and BidsFileGroup's wiring of the four)."""
 from vp import reg as R
 from vp import chx, bids_stub
-from vp.sidecar_stub import DecodedFile, _JsonStub
 from models import bids_ref as M
-import hed.models.sidecar as _sidecar_mod
 from hed.errors.exceptions import HedFileError
 from hed.models.sidecar import Sidecar
 from hed.tools.util import io_util
@@ -14,13 +12,12 @@ from hed.tools.bids.bids_file_group import BidsFileGroup
 
 chx.install()               # parse_bids_filename lower-cases the extension
 
-_HARDWIRE_KNOWN = True      # while developing: exclusions active without known_findings.json
+_HARDWIRE_KNOWN = False     # while developing: exclusions active without known_findings.json
 
 
 def _known(fid, verdict):
     if _HARDWIRE_KNOWN:
-        import os
-        return bool(verdict) and not os.environ.get("VP_NO_EXCLUDE")
+        return bool(verdict) and R.env_int("VP_NO_EXCLUDE") is None
     return R.known(fid, verdict)
 
 
@@ -93,12 +90,12 @@ def _kcell(k):
     return t is None or k == "abc"[t]
 
 
-_PREFIX = ["", "/r/sub-1/", "r.x/", "/a-b_c/"]     # directory part must not influence the parse
+_PREFIX = ["", "/r.x/a-b_c/"]     # the directory part (with every delimiter in it) must not influence the parse
 
 
 def parse_roundtrip(k1: str, v1: str, k2: str, v2: str, n: int, suf: str, ext: str, d: int) -> bool:
     """
-    pre: 0 <= n <= 2 and 0 <= d <= 3
+    pre: 0 <= n <= 2 and 0 <= d <= 1
     pre: _envcell(cnt=n, dirx=d) and _kcell(k1)
     pre: _key(k1) and _key(k2) and k1 != k2
     pre: _alnum(v1, 1, R.N(2)) and _alnum(v2, 1, R.N(2)) and _alnum(suf, 1, R.N(2)) and _alnum(ext, 1, R.N(2))
@@ -353,16 +350,16 @@ _S_JSON = "open() and json inside hed.models.sidecar are replaced by vp/bids_stu
 _S_FOUND = "BidsFileGroup's three discovery methods (_make_sidecar_dict, _make_sidecar_dir_dict, _make_datafile_dict; " \
            "os.walk wrappers) return the given objects (vp/bids_stub.FoundGroup); the rest of __init__ is real"
 
-_WALK_BOUND_Q = ("0..2 sidecars, each in any of 4 directories (root, sub-1, sub-1/ses-1, sub-10) with an entity map of "
-                 "<= 1 entry, one common suffix; data file in any of the 4 directories with an entity map of <= %d "
-                 "entries and its own suffix; keys, values, suffixes any 1-character strings")
-_WALK_BOUND_T = ("0..3 sidecars, each in any of 5 directories (root, sub-1, sub-1/ses-1, sub-10, sub-1/ses-2) with an "
-                 "entity map of <= 1 entry, one common suffix; data file in any of the 5 directories with an entity "
-                 "map of <= 2 entries and its own suffix; keys, values, suffixes any 1-character strings")
+def _walk_bound(nsc, ndirs, m):
+    dirs = "root, sub-1, sub-1/ses-1, sub-10, sub-1/ses-2".split(", ")[:ndirs]
+    return ("0..%d sidecars, each in any of %d directories (%s) with an entity map of <= 1 entry, one common suffix; "
+            "data file in any of these directories with an entity map of <= %d entries and its own suffix; keys, "
+            "values, suffixes any 1-character strings" % (nsc, ndirs, ", ".join(dirs), m))
+
 
 HARNESSES = [
     R.H("parse_total", _T_PARSE,
-        quick=R.tier(cells=R.str_cells(4, split1_from=3, nclass=len(_PARSE_CLASSES) + 1), env={"VP_N": 4}, timeout=150,
+        quick=R.tier(cells=R.str_cells(4, split1_from=3, nclass=len(_PARSE_CLASSES) + 1), env={"VP_N": 4}, timeout=300,
                      bound="every string s over {a,B,-,_,.,space,/} with len(s) <= 4"),
         thorough=R.tier(cells=R.str_cells(5, split1_from=3, split2_from=4, nclass=len(_PARSE_CLASSES) + 1),
                         env={"VP_N": 5}, timeout=900,
@@ -374,11 +371,11 @@ HARNESSES = [
         outside="other alphabets (entity keys are hashed into a real dict, which makes CrossHair enumerate them; the "
                 "alphabet holds one representative per character class the parser distinguishes)"),
     R.H("parse_roundtrip", _T_PARSE,
-        quick=R.tier(cells=R.product_cells(R.int_cells("VP_CNT", 0, 2), R.int_cells("VP_DIRX", 0, 3)),
-                     env={"VP_N": 1}, timeout=120,
+        quick=R.tier(cells=R.product_cells(R.int_cells("VP_CNT", 0, 2), R.int_cells("VP_DIRX", 0, 1)),
+                     env={"VP_N": 1}, timeout=300,
                      bound="names <dir>k1-v1_k2-v2_suffix.ext with 0..2 entities, keys distinct in {a,b,c}, values, "
-                           "suffix and extension any [0-9A-Za-z]{1}, four directory prefixes"),
-        thorough=R.tier(cells=R.product_cells(R.int_cells("VP_CNT", 0, 2), R.int_cells("VP_DIRX", 0, 3),
+                           "suffix and extension any [0-9A-Za-z]{1}, bare or under the directory /r.x/a-b_c/"),
+        thorough=R.tier(cells=R.product_cells(R.int_cells("VP_CNT", 0, 2), R.int_cells("VP_DIRX", 0, 1),
                                               R.int_cells("VP_K1", 0, 2)),
                         env={"VP_N": 2}, timeout=1000, path_timeout=60,
                         bound="as quick with values, suffix and extension any [0-9A-Za-z]{1,2}"),
@@ -387,7 +384,7 @@ HARNESSES = [
         outside="longer labels; keys beyond {a,b,c}"),
     R.H("sidecar_applies", _T_APPL,
         quick=R.tier(cells=R.product_cells(R.int_cells("VP_NS", 0, 2), R.int_cells("VP_NF", 0, 2)),
-                     env={"VP_LL": 1}, timeout=150,
+                     env={"VP_LL": 1}, timeout=300,
                      bound="sidecar and file entity maps of 0..2 entries with keys/values any 1-character string, "
                            "suffixes any 1-character string, directories any of 5 fixed ones (root, sub-1, "
                            "sub-1/ses-1, sub-10, sub-1/ses-2), or the sidecar tested against itself"),
@@ -401,11 +398,11 @@ HARNESSES = [
         outside="entity maps with more than 2 entries; other directory shapes"),
     R.H("sidecar_chain", _T_WALK,
         quick=R.tier(cells=R.product_cells(R.int_cells("VP_FD", 0, 3), R.int_cells("VP_AD", 0, 3)),
-                     env={"VP_NSC": 2, "VP_N": 1, "VP_M": 1, "VP_NDIRS": 4}, timeout=150, bound=_WALK_BOUND_Q % 1),
-        thorough=R.tier(cells=R.product_cells(R.int_cells("VP_FD", 0, 4), R.int_cells("VP_AD", 0, 4),
-                                              R.int_cells("VP_BD", 0, 4)),
-                        env={"VP_NSC": 3, "VP_N": 1, "VP_M": 2, "VP_NDIRS": 5}, timeout=900, path_timeout=60,
-                        bound=_WALK_BOUND_T),
+                     env={"VP_NSC": 2, "VP_N": 1, "VP_M": 1, "VP_NDIRS": 4}, timeout=300, bound=_walk_bound(2, 4, 1)),
+        thorough=R.tier(cells=R.product_cells(R.int_cells("VP_FD", 0, 3), R.int_cells("VP_AD", 0, 3),
+                                              R.int_cells("VP_BD", 0, 3)),
+                        env={"VP_NSC": 3, "VP_N": 1, "VP_M": 2, "VP_NDIRS": 4}, timeout=900, path_timeout=60,
+                        bound=_walk_bound(3, 4, 2)),
         what="get_sidecars_from_path(file) == paths of the applicable sidecars, one per directory on the way from the "
              "root to the file's directory, root first (inputs with two applicable sidecars in one directory are "
              "skipped: BIDS forbids them and the property does not say which wins)",
@@ -416,7 +413,7 @@ HARNESSES = [
     R.H("merge_deeper_wins", _T_MERGE,
         quick=R.tier(cells=R.int_cells("VP_NFILES", 0, 2) + R.product_cells(R.int_cells("VP_NFILES", 3, 3),
                                                                              R.int_cells("VP_L0", 0, 2)),
-                     env={"VP_NCOLS": 2}, timeout=150,
+                     env={"VP_NCOLS": 2}, timeout=300,
                      bound="0..3 JSON files listed root first, each with 0..2 distinct column names from {a,b} and "
                            "arbitrary integer values"),
         thorough=R.tier(cells=R.int_cells("VP_NFILES", 0, 1)
@@ -431,14 +428,11 @@ HARNESSES = [
         outside="JSON decoding; column names beyond {a,b,c} (dict.update hashes them, CrossHair enumerates)"),
     R.H("group_merged_sidecar", _T_GROUP,
         quick=R.tier(cells=R.product_cells(R.int_cells("VP_FD", 0, 2), R.int_cells("VP_AD", 0, 2)),
-                     env={"VP_NSC": 2, "VP_N": 1, "VP_M": 1, "VP_NDIRS": 3}, timeout=150,
-                     bound=(_WALK_BOUND_Q % 1).replace("4 directories (root, sub-1, sub-1/ses-1, sub-10)",
-                                                       "3 directories (root, sub-1, sub-1/ses-1)")
-                     .replace("the 4 directories", "the 3 directories")),
-        thorough=R.tier(cells=R.product_cells(R.int_cells("VP_FD", 0, 4), R.int_cells("VP_AD", 0, 4),
-                                              R.int_cells("VP_BD", 0, 4)),
-                        env={"VP_NSC": 3, "VP_N": 1, "VP_M": 2, "VP_NDIRS": 5}, timeout=1000, path_timeout=60,
-                        bound=_WALK_BOUND_T),
+                     env={"VP_NSC": 2, "VP_N": 1, "VP_M": 1, "VP_NDIRS": 3}, timeout=300, bound=_walk_bound(2, 3, 1)),
+        thorough=R.tier(cells=R.product_cells(R.int_cells("VP_FD", 0, 3), R.int_cells("VP_AD", 0, 3),
+                                              R.int_cells("VP_BD", 0, 3)),
+                        env={"VP_NSC": 3, "VP_N": 1, "VP_M": 1, "VP_NDIRS": 4}, timeout=1000, path_timeout=60,
+                        bound=_walk_bound(3, 4, 1)),
         what="after BidsFileGroup.__init__, datafile_dict[path].sidecar.contents.loaded_dict == top-down merge of the "
              "contents of the file's applicable sidecars (None when there is none); contents are fixed documents "
              "chosen so that the merged dict determines the chain and the relative order of its members",
